@@ -79,6 +79,24 @@ theorem C10_tab_new_units_accepted :
   | unsupported => simp [Verdict.isAccepted] at hacc
   | notAWord => simp [Verdict.isAccepted] at hacc
 
+-- non-vacuity of the verdicts, independent of the live tables: `kWh` is accepted and means 3.6 MJ exactly; `Eh` would take
+-- over exa-hour; `tm` would make `datm` ambiguous; a definition through an unknown name is refused; `amu` inherits `u`'s tolerance
+example : (match judge SI.units ['k', 'W', 'h'] (.text ['3', '.', '6', '*', '1', '0', '^', '6', ' ', 'J']) with
+    | .accepted r => decide (r.value = 3600000 ∧ r.dim = SI.energy ∧ r.tol = 0)
+    | _ => false) = true := by decide +kernel
+example : (match judge SI.units ['E', 'h'] (.text ['J']) with
+    | .ambiguous s => decide (s = ['E', 'h'])
+    | _ => false) = true := by decide +kernel
+example : (match judge SI.units ['t', 'm'] (.text ['k', 'm']) with
+    | .ambiguous s => decide (s = ['d', 'a', 't', 'm'])
+    | _ => false) = true := by decide +kernel
+example : (match judge SI.units ['w', 'k'] (.text ['7', ' ', 'd', 'y']) with
+    | .badDefinition e => decide (e = .unitsParse)
+    | _ => false) = true := by decide +kernel
+example : (match judge SI.units ['a', 'm', 'u'] (.text ['u']) with
+    | .accepted r => decide (r.tol = 1 / 10 ^ 6)
+    | _ => false) = true := by decide +kernel
+
 /-- Table obligation **T1 for new units**: for every new unit `r` and every SI prefix `p = 10^k` (and no prefix), the
 package's `lookup (p ++ r.name)` is an exact magnitude equal to `10^k` times what the definition of `r` means over the
 extended reference (within the tolerance the definition inherits from units tied to measured constants; 0 otherwise)
